@@ -229,6 +229,50 @@ func (p *Half) UnmarshalBinary(data []byte) error {
 	return nil
 }
 
+// Fill helpers: a hand-written copy loop called with the whole array as destination.
+func revCopy(dst, src []byte) {
+	for i, j := 0, len(src)-1; j >= 0; i, j = i+1, j-1 {
+		dst[i] = src[j]
+	}
+}
+
+// revCopyShort stops one element early.
+func revCopyShort(dst, src []byte) {
+	for i, j := 0, len(src)-1; j >= 1; i, j = i+1, j-1 {
+		dst[i] = src[j]
+	}
+}
+
+// mixCopy folds the previous content of dst into what it stores.
+func mixCopy(dst, src []byte) {
+	for i := 0; i < len(src); i++ {
+		dst[i] ^= src[i]
+	}
+}
+
+// condCopy skips elements.
+func condCopy(dst, src []byte) {
+	for i := 0; i < len(src); i++ {
+		if src[i] != 0 {
+			dst[i] = src[i]
+		}
+	}
+}
+
+type Filled struct{ A, B, C, D, E [4]byte }
+
+func (p *Filled) UnmarshalBinary(data []byte) error {
+	if len(data) != 20 {
+		return &fixErr{}
+	}
+	revCopy(p.A[:], data[0:4])
+	revCopyShort(p.B[:], data[4:8])
+	mixCopy(p.C[:], data[8:12])
+	condCopy(p.D[:], data[12:16])
+	revCopy(p.E[:], data[16:19])
+	return nil
+}
+
 // ---- R7 / registry
 type CID byte
 
@@ -271,6 +315,47 @@ func PutDeferLit(c byte, n int) {
 		return
 	}
 	okReg[c] = n
+}
+
+// lazily built tables
+var sqOnce sync.Once
+var sqTab *[16]int
+
+func squares() *[16]int {
+	sqOnce.Do(func() {
+		t := new([16]int)
+		for i := range t {
+			t[i] = i * i
+		}
+		sqTab = t
+	})
+	return sqTab
+}
+func Square(i int) int { return squares()[i&15] }
+
+// earlyTab: one reader does not wait for Do
+var earlyOnce sync.Once
+var earlyTab *[4]int
+
+func early() *[4]int {
+	earlyOnce.Do(func() { earlyTab = &[4]int{1, 2, 3, 4} })
+	return earlyTab
+}
+func EarlyOK(i int) int { return early()[i&3] }
+func EarlyRacy(i int) int {
+	if earlyTab != nil {
+		return earlyTab[i&3]
+	}
+	return early()[i&3]
+}
+
+// firstArg: what is stored depends on the first caller's argument (the literal captures it)
+var firstOnce sync.Once
+var firstVal int
+
+func First(n int) int {
+	firstOnce.Do(func() { firstVal = n })
+	return firstVal
 }
 `,
 	"band/band.go": `package band
@@ -462,6 +547,11 @@ func c10Fixture(c *Ctx) {
 		{"R5.overwrite|lorawan.Good2.UnmarshalBinary/N", fxOK},
 		{"R5.overwrite|lorawan.Good2.UnmarshalBinary/L", fxOK},
 		{"R5.overwrite|lorawan.Half.UnmarshalBinary/Arr", fxBad},
+		{"R5.overwrite|lorawan.Filled.UnmarshalBinary/A", fxOK},
+		{"R5.overwrite|lorawan.Filled.UnmarshalBinary/B", fxBad},
+		{"R5.overwrite|lorawan.Filled.UnmarshalBinary/C", fxBad},
+		{"R5.overwrite|lorawan.Filled.UnmarshalBinary/D", fxBad},
+		{"R5.overwrite|lorawan.Filled.UnmarshalBinary/E", fxBad},
 		{"R6.freshband|band.newSharedBand", fxBad},
 		{"R6.freshband|band.newFreshBand", fxOK},
 		{"R6.bandglobals|band.table", fxBad},
@@ -470,6 +560,9 @@ func c10Fixture(c *Ctx) {
 		{"R7.globals|lorawan.okReg", fxOK},
 		{"R7.globals|lorawan.counter", fxBad},
 		{"R7.globals|lorawan.regMu", fxOK},
+		{"R7.globals|lorawan.sqTab", fxOK},
+		{"R7.globals|lorawan.earlyTab", fxBad},
+		{"R7.globals|lorawan.firstVal", fxBad},
 		{"R7.lock|lorawan.reg@lorawan.Get/lookup reg", fxBad},
 		{"R7.lock|lorawan.reg@lorawan.Put/map update reg[…]", fxOK},
 		{"R7.lock|lorawan.okReg@lorawan.GetOK/lookup okReg", fxOK},
